@@ -81,8 +81,13 @@ fn images(check: &Check) -> Vec<(String, Image)> {
                 // quick tier, colour: one pixel takes every assignment while the other one is the fixed
                 // asymmetric pixel (last, first, first letter), in both positions
                 if check.quick() && ch == 3 {
+                    // ... and RGB8 takes the 2x1 shape, RGB16 the 1x2 shape
+                    if (color.bits() == 8) != (w == 2) {
+                        continue;
+                    }
                     let fixed = [alpha[2], alpha[0], alpha[0]];
-                    if s[..3] != fixed && s[3..] != fixed {
+                    // RGB8: the second pixel is the fixed one; RGB16: the first
+                    if (color.bits() == 8 && s[3..] != fixed) || (color.bits() == 16 && s[..3] != fixed) {
                         continue;
                     }
                 }
@@ -359,9 +364,9 @@ fn main() {
     let check = Check::from_args("C35", Level::Exploration);
     check.set_rule(
         "images = colour types {L8, L16, RGB8, RGB16} x (1x1: every assignment of {0,1,max} (16-bit: + 0x0102, 0xFF00) to the channels; \
-         1x2 and 2x1: every assignment of a 3-value alphabet ({0,1,255} / {0,0x0102,0xFFFF}) to all samples (quick, colour: 3-letter alphabet for 1x1, and for two pixels one pixel fixed to (max,0,0) while the other takes every assignment, both positions); \
+         1x2 and 2x1: every assignment of a 3-value alphabet ({0,1,255} / {0,0x0102,0xFFFF}) to all samples (quick, colour: 3-letter alphabet for 1x1, and for two pixels (RGB8 2x1, RGB16 1x2) one pixel fixed to (max,0,0) (RGB8 the second, RGB16 the first) while the other takes every assignment); \
          2x2, 3x1, 1x3, 4x3 (thorough: + 7x5, 64x1, 1x64, 64x64): distinct index-coded byte-asymmetric samples) \
-         x base DICOM files {8-bit mono ELE, 16-bit signed mono with rescale/window ILE, 8-bit planar RGB 2 frames ELE} (quick: one base per image in rotation, all bases for the first assignment and the index-coded image of each shape) \
+         x base DICOM files {8-bit mono ELE, 16-bit signed mono with rescale/window ILE, 8-bit planar RGB 2 frames ELE} (quick: one base per image in rotation, all bases for the first 1x1 assignment and the 2x2 and 4x3 index-coded images) \
          x routes {(a) fromimage --encapsulate + toimage --unwrap; (b) native + toimage for colour; (c) native + toimage for grey, dimensions only}; \
          a case is (image, base, route), distinct by id; non-trivial = fromimage produced the intermediate file",
     );
@@ -378,7 +383,7 @@ fn main() {
         for (bn, (bname, b)) in bases.iter().enumerate() {
             // quick tier: one base per image (rotating, so every colour type meets every base); the first
             // assignment and the index-coded images of every shape meet all bases
-            if check.quick() && bn != n % bases.len() && !(iid.ends_with("/v0") || iid.ends_with("/idx")) {
+            if check.quick() && bn != n % bases.len() && !(iid.ends_with("/1x1/v0") || iid.ends_with("/2x2/idx") || iid.ends_with("/4x3/idx")) {
                 continue;
             }
             let routes: &[Route] = if im.color.channels() == 3 { &[Route::A, Route::B] } else { &[Route::A, Route::C] };
